@@ -735,7 +735,7 @@ def ops_for(rng, m, out, p=0.7):
 
 
 def gen_main(rng, tier):
-    n = 260 if tier == 'quick' else 2600
+    n = 1200 if tier == 'quick' else 6000
     ops = []
     for _ in range(n):
         k = rng.random()
@@ -787,7 +787,7 @@ def gen_main(rng, tier):
 
 def gen_pair(rng, tier):
     """intersect / bound: same matrix, scaled copies, commuting pairs, general pairs, degenerate first argument"""
-    n = 150 if tier == 'quick' else 1500
+    n = 500 if tier == 'quick' else 2500
     ops = []
     for _ in range(n):
         k = rng.random()
@@ -827,7 +827,7 @@ def gen_pair(rng, tier):
 
 def gen_strict(rng, tier):
     """exactly the family of the property text: l in 1e-12..1e12, cond <= 1e10; diag_m / diag_m2 only"""
-    n = 250 if tier == 'quick' else 2500
+    n = 400 if tier == 'quick' else 3000
     ops = []
     for _ in range(n):
         if rng.random() < 0.85:
